@@ -458,7 +458,7 @@ impl<'r> Gen<'r> {
         let quotes = if self.rng.chance(1, 6) { "'''''" } else { "'''" };
         let n = self.rng.range(1, 4);
         let mut lines = vec![];
-        const L: &[&str] = &["some text", "", "  indented more", "select * from t", "it's 'quoted'", "x", "tab\there", "trailing  ", "   ", "\t"];
+        const L: &[&str] = &["some text", "", "  indented more", "select * from t", "it's 'quoted'", "x", "tab\there", "trailing  ", "   ", "\t", "\u{a0}", "\u{2003} "];
         for _ in 0..n {
             lines.push(self.rng.pick(L).to_string());
         }
